@@ -321,6 +321,8 @@ class XEval:
             return None
         if isinstance(s, ast.Return):
             return ("ret", self.ev(s.value, env, f) if s.value is not None else ("none",))
+        if isinstance(s, ast.Pass):
+            return None
         if isinstance(s, ast.Raise):
             raise Reject
         if isinstance(s, ast.If):
@@ -360,6 +362,9 @@ class XEval:
         if isinstance(e, ast.Name):
             if e.id in env:
                 return env[e.id]
+            dn = I.prog.resolve_name(I.prog.origin(f.module, e), e.id)
+            if dn is not None and dn.kind == "class" and I.record_fields(dn.obj) is not None:
+                return ("cls", dn.obj)
             try:
                 v = I.folder.fold(f.module, e)
             except Unfoldable as err:
@@ -370,7 +375,16 @@ class XEval:
             if base[0] == "rec":
                 if e.attr in base[1]:
                     return base[1][e.attr]
+                rc = base[1].get("__class__")
+                m = rc.find_method(e.attr) if rc is not None else None
+                if m is not None:
+                    return ("method", m, base)
                 raise AnalysisError(f"XFIELD-1: record has no field {e.attr}")
+            if base[0] == "cls":
+                m = base[1].find_method(e.attr)
+                if m is not None:
+                    return ("method", m, base)
+                raise AnalysisError(f"XFIELD-1: class {base[1].name} has no method {e.attr}")
             if base[0] == "self" and e.attr == "context":
                 return ("ctxdict",)
             if base[0] == "proto":
@@ -493,9 +507,28 @@ class XEval:
             if dcls is not None and dcls.kind == "class":
                 flds = I.record_fields(dcls.obj)
                 if flds is not None and len(args) <= len(flds) and all(k in flds for k in kwargs):
-                    rec = dict(zip(flds, args))
-                    rec.update(kwargs)
-                    return ("rec", rec)
+                    return self.make_record(dcls.obj, flds, args, kwargs, f)
+        if isinstance(fn, ast.Name) and fn.id in env and env[fn.id][0] == "cls":
+            c_ = env[fn.id][1]
+            flds = I.record_fields(c_)
+            if flds is not None and len(args) <= len(flds) and all(k in flds for k in kwargs):
+                return self.make_record(c_, flds, args, kwargs, f)
+        if isinstance(fn, ast.Attribute):
+            try:
+                bv = self.ev(fn.value, env, f) if isinstance(fn.value, ast.Name) and (fn.value.id in env or I.prog.resolve_name(I.prog.origin(f.module, fn.value), fn.value.id) is not None and I.prog.resolve_name(I.prog.origin(f.module, fn.value), fn.value.id).kind == "class") else None
+            except AnalysisError:
+                bv = None
+            if bv is not None and bv[0] in ("rec", "cls"):
+                c_ = bv[1].get("__class__") if bv[0] == "rec" else bv[1]
+                m = c_.find_method(fn.attr) if c_ is not None else None
+                if m is not None:
+                    env2 = {} if m.is_staticmethod() else {m.positional_params[0]: (("cls", c_) if m.is_classmethod() else bv)}
+                    ps = m.positional_params if m.is_staticmethod() else m.positional_params[1:]
+                    for p_, a_ in zip(ps, args):
+                        env2[p_] = a_
+                    env2.update(kwargs)
+                    r = self.call_func(m, env2)
+                    return r[1] if r is not None else ("none",)
         if isinstance(fn, ast.Name):
             if fn.id == "len" and len(args) == 1:
                 a0 = args[0]
@@ -587,6 +620,17 @@ class XEval:
                     return base[1][k[1]]
                 return args[1] if len(args) > 1 else ("none",)
         raise AnalysisError(f"XFIELD-1: call `{norm(e)[:70]}` in {f.fq} not modelled")
+
+    def make_record(self, c, flds, args, kwargs, f):
+        rec = dict(zip(flds, args))
+        rec.update(kwargs)
+        # field defaults
+        for k in c.repo_mro():
+            for nm, val in k.attr_order:
+                if nm in flds and nm not in rec and val is not None:
+                    rec[nm] = self.ev(val, {}, f)
+        rec["__class__"] = c
+        return ("rec", rec)
 
     def apply_validator(self, rec, v):
         if v[0] == "raw":
